@@ -211,6 +211,19 @@ func tearPoints(p, existing []byte) []int {
 			set[(fd/585+m)*585+5] = true
 		}
 	}
+	// the boundaries of every run of bytes the write changes (a table write that changes fields of
+	// several slots: between any two of them the file holds one change without the other)
+	runs := 0
+	for i := 0; i < L && runs < 24; i++ {
+		differs := func(k int) bool { return k >= len(existing) || existing[k] != p[k] }
+		if differs(i) && (i == 0 || !differs(i-1)) {
+			set[i] = true
+			runs++
+		}
+		if !differs(i) && i > 0 && differs(i-1) {
+			set[i] = true
+		}
+	}
 	var out []int
 	for j := range set {
 		if j >= 1 && j <= L-1 {
